@@ -21,6 +21,22 @@ ALL_SCENARIOS = ["future_poll", "future_await", "future_compete", "mutex", "mute
                  "storage", "generator", "signal", "shared"]
 
 
+def failing_lock_programs():
+    """names of the extracted member functions that LockProg.check rejects on this tree (Lean #eval)"""
+    src = ("import CoclsModel.LockProg\nimport CoclsModel.Generated.LockProgs\nopen Cocls\n"
+           "#eval (Generated.LockProgs.allLockProgs.filter (fun f => !f.ok)).map (fun f => f.defName)\n")
+    d = os.path.join(core.BUILD, "c03_eval")
+    os.makedirs(d, exist_ok=True)
+    fn = os.path.join(d, "lockprogs_%d.lean" % os.getpid())
+    open(fn, "w").write(src)
+    with core.LakeLock():
+        core.sh(["lake", "build", "CoclsModel.LockProg", "CoclsModel.Generated.LockProgs"], cwd=core.LEAN, timeout=1200)
+        rc, out, err = core.sh(["lake", "env", "lean", fn], cwd=core.LEAN, timeout=600)
+    os.unlink(fn)
+    import re as _re
+    return _re.findall(r'"([A-Za-z0-9_]+)"', out)
+
+
 def tsan_binary():
     return core.build_harness("tsan_sc", ["tsan_scenarios.cpp"], sanitize=False, extra_flags=["-fsanitize=thread"])
 
@@ -101,7 +117,8 @@ class C03(Spec):
     def table_obligations(self):
         return ["c03_current_orders", "c03_no_consume", "c03_lock_tables", "c03_lock_tables_cover", "c03_mutex_no_touch_after_publish",
                 "c03_walk_reads_next_before_resume", "c03_unlock_unlinks_before_resume", "c03_final_resolve_before_destroy",
-                "c03_build_queue_acquires_before_queue",
+                "c03_build_queue_acquires_before_queue", "c03_lock_programs_disciplined", "c03_lock_programs_cover",
+                "c03_lock_programs_classes",
                 "c03_awaiter_no_touch_after_publish", "c03_sites_accounted", "c03_rmw_shapes", "c03_tracer_ref_before_publish"]
 
     def prebuild(self):
@@ -171,6 +188,22 @@ class C03(Spec):
                     scenarios += scs
             if not names:
                 scenarios += ALL_SCENARIOS
+        if broken & {"c03_lock_programs_disciplined", "c03_lock_programs_cover", "c03_lock_programs_classes"}:
+            # which member functions does LockProg.check reject on this tree?
+            bad = []
+            try:
+                bad = failing_lock_programs()
+            except Exception as e:
+                core.log("failing_lock_programs: %r" % (e,))
+            ctx["notes"].append({"lock_programs_rejected": bad})
+            hit = False
+            for cls, scs in CLASS_SCENARIOS.items():
+                if any(b.startswith(cls.replace("::", "_")) for b in bad):
+                    scenarios += scs
+                    hit = True
+            if not hit:
+                for scs in CLASS_SCENARIOS.values():
+                    scenarios += scs
         if "c03_lock_tables" in broken or "c03_lock_tables_cover" in broken:
             for cls, fn, field in ctx.get("extract", {}).get("guarded_unlocked", []):
                 scenarios += CLASS_SCENARIOS.get(cls, [])
